@@ -9,8 +9,8 @@ Local Open Scope N_scope.
 (* A rewritten line: old = g1 m1 c1 g2 m2 c2 ... tail and new = g1 r1 c1 g2 r2 c2 ... tail, where (Chain) the
    mi are the successive matches reported by the matcher scanning left to right -- the first search
    on the whole line, every later one on the rest of the line with RE_NOTBOL --, ri is the expanded
-   replacement, ci is the one character stepped over when the match ended at the start of the
-   searched rest (else empty), the scan goes on only with flag g and while the rest is non-empty.
+   replacement, ci is the one character stepped over after an empty match (else empty; see
+   C14_empty_match_steps), the scan goes on only with flag g and while the rest is non-empty.
    Without g exactly one match is replaced. *)
 Theorem C14_structure : forall find rep gflag line new,
   subst_line find rep gflag line = Changed new ->
@@ -60,17 +60,31 @@ Theorem C14_utf8 : forall find gflag cs rs new,
 Proof. exact utf8_preserved. Qed.
 Print Assumptions C14_utf8.
 
-(* the scan as it stands steps over a character only when the match ENDS at the start of the
-   searched rest: an empty match further right is found again by the next search and replaced
-   twice (finding KF-EMPTY-TWICE; matcher = empty match in front of the first "c") *)
+(* advance by one character after an empty match, and only then: in every segment cut by a match the
+   stepped-over text c is one character (MAX(1, uc_len) bytes of the rest) when the matched text is
+   empty -- wherever in the searched rest the match lies -- and is empty otherwise *)
+Theorem C14_empty_match_steps : forall rep ln offs g m r c rest,
+  match_seg rep ln offs (g, m, r, c) rest ->
+  (m = [] -> (1 <= length c)%nat /\ step_char (c ++ rest) = Some (c, rest)) /\ (m <> [] -> c = []).
+Proof. exact empty_match_steps. Qed.
+Print Assumptions C14_empty_match_steps.
+
+(* an empty pattern reuses the previous one: after s<d>p<d>... with a non-empty pattern p (free of the
+   delimiter and of backslashes) a later s<d2><d2>... compiles p again; with nothing remembered it
+   compiles nothing (error return) *)
+Theorem C14_reuse : forall st d p tail d2 tail2, plain d p -> p <> [] ->
+  setup_pat (setup_state st (d :: p ++ d :: tail)) (d2 :: d2 :: tail2) = Some p.
+Proof. exact reuse. Qed.
+Print Assumptions C14_reuse.
+Theorem C14_reuse_nothing : forall d tail rep0, setup_pat (mk_sstate None rep0) (d :: d :: tail) = None.
+Proof. exact setup_empty_none. Qed.
+Print Assumptions C14_reuse_nothing.
+
+(* a matcher that reports the empty match in front of the first "c" (used below) *)
 Definition find_c (ln : bytes) (nb : bool) : option (list grp) :=
   (fix go (l : bytes) (i : Z) := match l with
      | [] => None
      | c :: l' => if c =? 99 then Some [(i, i)] else go l' (i + 1)%Z end) ln 0%Z.
-Theorem C14_empty_twice_refuted : exists line,
-  subst_line find_c [88] true line = Changed [98; 32; 88; 88; 99; 10] /\ line = [98; 32; 99; 10].
-Proof. eexists. split; [|reflexivity]. vm_compute. reflexivity. Qed.
-Print Assumptions C14_empty_twice_refuted.
 
 (* non-vacuity: with a matcher for the literal "a" (first occurrence in the rest), s/a/[\0\1]/g turns
    "baa\n" into "b[a][a]\n" through a chain of two segments, and "bcd\n" is left alone *)
@@ -81,5 +95,7 @@ Definition find_a (ln : bytes) (nb : bool) : option (list grp) :=
 Example C14_nonvacuous :
   subst_line find_a [91; 92; 48; 92; 49; 93] true [98; 97; 97; 10] = Changed [98; 91; 97; 93; 91; 97; 93; 10] /\
   subst_line find_a [91; 92; 48; 92; 49; 93] false [98; 97; 97; 10] = Changed [98; 91; 97; 93; 97; 10] /\
-  subst_line find_a [88] true [98; 99; 100; 10] = Unchanged.
+  subst_line find_a [88] true [98; 99; 100; 10] = Unchanged /\
+  (* an empty match to the right of the start of the rest is replaced once: "b c" -> "b Xc" *)
+  subst_line find_c [88] true [98; 32; 99; 10] = Changed [98; 32; 88; 99; 10].
 Proof. vm_compute. repeat split; reflexivity. Qed.
